@@ -17,13 +17,16 @@ CLAIMS = {
     'C02': ('proof', 'canonicity theorem for the model invariant (DDProps/C02) + preservation by the modelled operations + exact-state correspondence; routes oracle on the real code', 'Lean 4 proof + differential correspondence'),
     'C03': ('proof', 'quantification on the model (DDProps/C03) tied by exhaustive 3-variable correspondence', 'Lean 4 proof + differential correspondence'),
     'C04': ('proof', 'cofactor/compose/rename on the model (DDProps/C04) tied by exhaustive 3-variable correspondence', 'Lean 4 proof + differential correspondence'),
+    'C05': ('proof', 'Lean model of the lexer (driven by the regenerated token tables) and a Pratt parser parametrised by the regenerated precedence table; print/parse round trip proved for every syntax tree, precedence table = documented table by decide, add_expr = bottom-up evaluation of the tree read, to_expr text = ite-unfolding; PLY/astutils tied by exhaustive short token strings and generated formulas; the semantic half (meaning of the evaluated tree) is stated, its pieces are the C01/C03/C04 theorems', 'Lean 4 proof + regenerated tables + differential correspondence'),
     'C06': ('proof', 'reference-count invariant and collection theorems on the model (DDProps/C06) tied by exhaustive short op sequences and long histories with exact state incl. counts, min_free, cache', 'Lean 4 proof + differential correspondence'),
     'C07': ('proof', 'swap/sifting/sort model with recorded set orders; theorems in DDProps/C07; exact-state correspondence', 'Lean 4 proof + differential correspondence'),
+    'C08': ('proof', 'handle-registry model of dd.autoref (every method = membership tests + core op + wrap; temporaries of <= < succ low high as explicit wrap/drop pairs; drop = __del__) with the count equation ref = in-degree + live handles proved for the registry operations and, from the core specifications, for every method; exact-state correspondence after every operation on real Function objects', 'Lean 4 proof + differential correspondence'),
     'C09': ('proof', 'model of _try_to_reorder with an arbitrary trigger position; theorems in DDProps/C09; correspondence at every trigger position', 'Lean 4 proof + differential correspondence'),
     'C10': ('proof', 'support/count/pick_iter on the model (DDProps/C10) tied by exhaustive 3-variable correspondence', 'Lean 4 proof + differential correspondence'),
     'C11': ('proof', 'copy between managers on the model (DDProps/C11) tied by correspondence over order pairs', 'Lean 4 proof + differential correspondence'),
     'C13': ('proof', 'image/preimage on the model (DDProps/C13) tied by exhaustive one-pair correspondence; preimage finding F5 recorded', 'Lean 4 proof + differential correspondence'),
     'C14': ('proof', 'add_var/undeclare_vars on the model (DDProps/C14) tied by interleaving correspondence', 'Lean 4 proof + differential correspondence'),
+    'C15x': ('proof', 'Lean model of dd.mdd.MDD (n-ary nodes, first edge regular, set allocator with recorded pop schedule) and of bdd_to_mdd; MInv, find_or_add / ite / apply (regenerated table) / canonicity / collection proved, every reachable MDD state good; bdd_to_mdd: MDD half proved, BDD half (reorder into zones + cofactors) as a named hypothesis, tied by exact-state correspondence and an evaluation oracle on every integer assignment', 'Lean 4 proof + regenerated tables + differential correspondence'),
     'C16': ('proof', 'abstract DDDMP file model (header tables, node list, re-indexing, bottom-up rebuild, root translation) with C16_load_spec proved for every well-formed file and numbering; text files tied by correspondence (the harness writes text and abstract encodings from the same data)', 'Lean 4 proof + differential correspondence'),
     'C17': ('proof', 'total step function: errors keep the invariant (DDProps/C17) tied by malformed-call injection', 'Lean 4 proof + differential correspondence'),
     'C19': ('proof', 'source-level only (the C extensions cannot be built here): translators over the four .pyx files regenerate Lean tables on every run; cApply_sound / cVocab / refTraces_balanced re-decided on them; partial by nature: relative to the line-structured reader and the hand-written C API semantics; nothing is executed', 'Lean 4 decide over tables regenerated from the .pyx sources'),
@@ -31,16 +34,14 @@ CLAIMS = {
 }
 
 PENDING = {
-    'C05': 'parser model and its correspondence are not built yet in this round (planned: Pratt parser model in Lean)',
-    'C08': 'autoref handle model not built yet in this round',
+    'C15': 'MDD slice merged; its model is being switched to mirror the repaired MDD.collect_garbage (fix 8c0881c); claimed again when the check is green',
     'C12': 'dump/load content model not built yet in this round',
-    'C15': 'MDD model not built yet in this round',
 }
 
 
 def main():
     checks = []
-    for pid, (level, text, tech) in sorted(CLAIMS.items()):
+    for pid, (level, text, tech) in sorted((k, v) for k, v in CLAIMS.items() if not k.endswith('x')):
         checks.append(dict(
             property_id=pid,
             quick_cmd=f'/venv/bin/python harness/vcheck.py {pid} --tier quick',
@@ -62,7 +63,7 @@ def main():
             add_only=True),
         engines=[dict(
             name='lean-model+correspondence', path='lean/ + harness/',
-            serves_properties=sorted(CLAIMS),
+            serves_properties=sorted(k for k in CLAIMS if not k.endswith('x')),
             kind_free_text='Lean 4 model of dd (lake project, no Mathlib in the model), property theorems in lean/DDProps, tables regenerated from /repo by harness/extract.py, compiled driver lean/.lake/build/bin/ddvdrv diffed against the real code by harness/vcheck.py')],
         checks=checks,
         notes='See DESIGN.md. Exit 2 = tool error/timeout (never a violation).',
